@@ -18,7 +18,7 @@ fn main() {
     }
     if args[1] == "fuzz-targets" {
         // the table of libFuzzer targets, for tools/fuzz_tier.py
-        let t: Vec<serde_json::Value> = props::fuzzers::TARGETS.iter().map(|t| serde_json::json!({"target": t.0, "property": t.1, "max_len": t.2, "input": t.3})).collect();
+        let t: Vec<serde_json::Value> = props::fuzzers::TARGETS.iter().map(|t| serde_json::json!({"target": t.0, "property": t.1, "max_len": t.2, "input": t.3, "runs_thorough": t.4})).collect();
         println!("{}", serde_json::to_string(&t).unwrap());
         std::process::exit(0);
     }
